@@ -24,7 +24,7 @@ from tqv.core import SubCheck, Violation, req
 # caller-owned arrays handed to the library must come back unchanged (see tqv/purity.py)
 from tqv.purity import install as _install_purity  # noqa: E402
 
-_install_purity('toqito.state_metrics', 'toqito.matrix_props')
+_install_purity('toqito.state_metrics', 'toqito.matrix_props', twice=True, skip_twice=('fidelity_of_separability', 'sk_operator_norm', 'is_block_positive', 'positive_semidefinite_rank'))
 
 PROPERTY = "C13"
 RULE = (
